@@ -7,7 +7,7 @@ import (
 	"verif/sim"
 )
 
-var sims = map[string]sim.SimFunc{"c14pcap": simC14pcap, "c14ng": simC14ng}
+var sims = map[string]sim.SimFunc{"c14pcap": simC14pcap, "c14ng": simC14ng, "c15": simC15}
 
 func TestChild(t *testing.T) {
 	if !sim.ChildMain(sims) {
